@@ -46,6 +46,12 @@ inductive Op where
   | tryPush (ov x : Nat)            -- inplace_vector: `try_push_back(const&)`, `(&&)`, `try_emplace_back`
   | unchecked (ov x : Nat)          -- inplace_vector: `unchecked_push_back(const&)`, `(&&)`, `unchecked_emplace_back`
   | dump
+  -- the argument is an element of the vector itself (`Arg.elem i`, Model.lean): [sequence.reqmts] requires these to work
+  | pushA (ov i : Nat)              -- ov 0 `push_back(v[i])`, 2 `emplace_back(v[i])`
+  | pushTop (ov : Nat)              -- ov 0 `push_back(back())` / `stack::push(top())`, 2 `emplace_back(back())` / `stack::emplace(top())`
+  | insertA (ov pos i : Nat)        -- ov 0 `insert(pos, v[i])` (the `T const&` overload), 2 `emplace(pos, v[i])`
+  | insertFillA (pos n i : Nat)     -- `insert(pos, n, v[i])`
+  | resizeValA (n i : Nat)          -- `resize(n, v[i])`
   deriving Repr, Inhabited
 
 structure Sys where
@@ -76,6 +82,7 @@ def supports : Ty → Op → Bool
   | .stk, .swap _ => true
   | .stk, .cmp _ => true
   | .stk, .dump => true
+  | .stk, .pushTop _ => true
   | .stk, _ => false
   | .ipv, .tryPush .. => true
   | .ipv, .unchecked .. => true
@@ -117,9 +124,18 @@ def step1 (cap : Nat) (kind : Kind) (op : Op) (d : V) : Except Err (V × Out) :=
   | .ctorN n => do let d1 ← ctorN cap n; .ok (d1, .unit)
   | .ctorNVal n x => do let d1 ← ctorNVal cap n x; .ok (d1, .unit)
   | .ctorRange xs => do let d1 ← ctorRange cap xs; .ok (d1, .unit)
-  | .eraseVal x => do let r ← eraseIf cap kind d (fun v => v == x); .ok (r.1, .count r.2)
+  | .eraseVal x => do let r ← eraseIf cap kind d (fun v => eqOf kind v x); .ok (r.1, .count r.2)
   | .eraseIf m r => do let e ← eraseIf cap kind d (modPred m r); .ok (e.1, .count e.2)
   | .dump => .ok (d, .unit)
+  | .pushA ov i =>
+    if ov = 2 then do let d1 ← emplaceBackA cap d (.elem i); .ok (d1, .unit)
+    else do let d1 ← pushBackA cap d (.elem i); .ok (d1, .unit)
+  | .pushTop ov => do let d1 ← pushTop cap d (ov == 2); .ok (d1, .unit)
+  | .insertA ov pos i =>
+    if ov = 0 then do let r ← insertCrefA cap d pos (.elem i); .ok (r.1, .it r.2)
+    else do let r ← emplaceA cap d pos (.elem i); .ok (r.1, .it r.2)
+  | .insertFillA pos n i => do let r ← insertFillA cap d pos n (.elem i); .ok (r.1, .it r.2)
+  | .resizeValA n i => do let d1 ← resizeValA cap d n (.elem i); .ok (d1, .unit)
   | _ => .error (.pre "not a single-object member")
 
 /-- operations on object `k` alone, for `inplace_vector` -/
@@ -177,7 +193,7 @@ def step (s : Sys) (k : Nat) (op : Op) : Except Err (Sys × Out) :=
   | .cmp j => do
     let o ← rd s.objs j
     let d ← rd s.objs k
-    let bs ← relOps d o
+    let bs ← relOps (ltOf s.kind) (eqOf s.kind) d o
     .ok (s, .rels bs)
   | op => do
     let d ← rd s.objs k
@@ -210,6 +226,11 @@ def valid1 (cap : Nat) (op : Op) (d : V) : Bool :=
   | .tryPush _ _ => true
   | .unchecked _ _ => d.length < cap
   | .dump => true
+  | .pushA _ i => d.length < cap && i < d.length
+  | .pushTop _ => d.length < cap && 0 < d.length
+  | .insertA _ pos i => d.length < cap && pos ≤ d.length && i < d.length
+  | .insertFillA pos n i => pos ≤ d.length && d.length + n ≤ cap && i < d.length
+  | .resizeValA n i => n ≤ cap && i < d.length
   | _ => false
 
 def isBinary : Op → Option Nat
